@@ -23,13 +23,19 @@ impl TryFrom<&UserBoundsList> for ForwardBounds {
         if value.is_empty() {
             Err("Cannot create ForwardBounds from an empty UserBoundsList")
         } else if value.is_forward_only() {
+            // Right side of the previous bound: the next bound can't
+            // start from it (the field would have to be printed twice).
             let mut prev_bound_idx = Side::Some(0);
             value.iter().try_for_each(|bof| {
                 if let BoundOrFiller::Bound(b) = bof {
-                    if b.l == prev_bound_idx {
+                    let left = match b.l {
+                        Side::Continue => Side::Some(1),
+                        l => l,
+                    };
+                    if left == prev_bound_idx {
                         return Err("Bounds are sorted, but can't be repeated");
                     }
-                    prev_bound_idx = b.l;
+                    prev_bound_idx = b.r;
                 }
                 Ok(())
             })?;
